@@ -2,6 +2,7 @@ package main
 
 import (
 	"fmt"
+	"github.com/glowlabs-org/gca-backend/glow"
 	"math"
 	"net"
 	"time"
@@ -101,6 +102,17 @@ func (a *acceptRun) menu(off uint32, heavy bool) {
 		a2.ShortID = id
 		sig2 := a.SR.Sign("d1", hx.RefAuthSigningBytes(a2))
 		send(hx.RefReportBytes(id, ts, v, sig2), false)
+	}
+	// the other algebraic encoding (r, N-s) of a valid report's signature: a datagram nobody signed
+	{
+		b := a.ReportBytes(1, slot(8), 58, "d1", 0)
+		var sg glow.Signature
+		copy(sg[:], b[16:])
+		m := hx.Malleate(sg)
+		mb := append(append([]byte(nil), b[:16]...), m[:]...)
+		send(mb, false)
+		send(b, false)
+		send(mb, true)
 	}
 	// 4. every single-bit flip of a valid report
 	flipBase := a.ReportBytes(1, slot(6), 56, "d1", 0)
